@@ -19,6 +19,18 @@ CLAIMED = {
             'DESIGN.md section C14'),
 }
 
+CLAIMED['C06'] = ('proof',
+    'The fold (initial state, step, accepted residue) and the generator of each of the 8 generic modules are extracted from the '
+    'syntax tree and the step is tabulated over its finite state x alphabet x position-class domain; single-substitution, '
+    'propagation, generator-uniqueness and adjacent-transposition facts are checked on every cell of the resulting machine '
+    '(Luhn: the undetected swaps must be exactly {0, n-1}). Lemmas 1-6 of sa/alg/LEMMAS.md lift the tabulated facts to strings '
+    'of every length by induction, which is the unbounded quantifier the tests cannot reach.',
+    'Trusted: CPython ast; sa/minieval.py (whitelisted expression evaluator used only to tabulate extracted expressions on finite '
+    'domains); the six lemmas. Alphabets covered: those used or documented in the repository; Luhn N in {2,10,16,36,40} quick, '
+    'all even N in 2..40 thorough.',
+    'algebraic model extraction from the AST + exhaustive tabulation of the extracted finite state machine',
+    'DESIGN.md section C06')
+
 NOT_APPLICABLE = {
 }
 
